@@ -247,6 +247,28 @@ def snap_shard(res, iset, first, L):
                              "program %r resumed at step %d on an instance %s: step %d gives %r, original run %r" % (
                                  names_of(iset, p), k, label, k + pos, got[pos], ref[k + pos]),
                              {"iset": iset, "program": list(p), "prefix": k, "instance": label})
+        # a sibling program that shares the first k instructions runs k steps on a fresh instance; then the snapshot of
+        # P at k is installed by assignment (only the code from instruction k on differs): whatever the instance kept
+        # about the code it has fetched or decoded so far (a fetch buffer, a decode cache keyed by address) is stale
+        for k in range(1, len(p)):
+            q = p[:k] + ((p[k] + 1) % n,) + p[k + 1:]
+            c4, p4 = setup_instance({}, thumb, prog_of(iset, q))
+            trace_steps(c4, p4, k)
+            regs, mem = snaps[k]
+            p4.restore_regs(regs, scratch=False)
+            for mc, (b_, e_, data) in zip(c4.mem.memories, mem):
+                mc.mem.memory_array[:] = data
+            res.cases += 1
+            res.add_state(hash((iset, p, k, "sibling")))
+            got = trace_steps(c4, p4, nsteps - k)
+            res.transitions += nsteps
+            res.outcome("continuation-sibling")
+            if got != ref[k:]:
+                pos = next(i for i, (x, y) in enumerate(zip(got, ref[k:])) if x != y)
+                res.fail("snapshot-continuation-differs (instance that ran a sibling program)",
+                         "program %r resumed at step %d on an instance that had run %r for %d steps: step %d gives %r, "
+                         "original run %r" % (names_of(iset, p), k, names_of(iset, q), k, k + pos, got[pos], ref[k + pos]),
+                         {"iset": iset, "program": list(p), "prefix": k, "sibling": list(q)})
     res.sample({"iset": iset, "program": names_of(iset, progs[-1]), "prefix_points": len(progs[-1])})
 
 
